@@ -42,6 +42,10 @@ def atom_c10(rng):
     if r < 0.3:
         key = rng.choice(PKG_KEYS)
         if rng.random() < 0.4:
+            if rng.random() < 0.35:
+                # bounds with different numbers of digits (n <= m numerically, not as strings)
+                a, b = rng.choice([(2, 10), (9, 10), (5, 100), (7, 12), (10, 11), (0, 10), (3, 30), (99, 100), (10, 10)])
+                return "[%s%d..%d]" % (key, a, b)
             a = rng.choice([0, 0, 1, 2])
             return "[%s%d..%d]" % (key, a, max(1, a) + rng.choice([0, 1, 4]))
         return "[%s]" % key
@@ -163,6 +167,20 @@ async def check_case(ctx, case):
         else:
             exp, _w = await resolve(s2, {}, False, False)
             if not compare(ctx, f"{s!r} with table {table} ({mode} resolver)", shipped[1], s2, exp[1], is_ahb, wcase):
+                return
+    # a content evaluation result WITHOUT package table (packages = None, the model's default): every package is unknown
+    if occurrences and rng.random() < 0.15:
+        from vf import evalhelp as H
+
+        for mode in ("cer", "hardcoded"):
+            built = capture(E.make_cer, {}, {}, {}, None, E.NO_PACKAGE_TABLE)
+            if built[0] != "ok":
+                break
+            bare = await H.with_shipped_evaluators(mode, built[1], lambda: parse_expression_including_unresolved_subexpressions(s, resolve_packages=True, replace_time_conditions=True))
+            ctx.evaluation()
+            ctx.count("resolutions_without_package_table")
+            if bare[0] == "ok" or not isinstance(bare[1], NotImplementedError):
+                ctx.violation("unknown-package", f"{s!r} with the {mode} package resolver and a content evaluation result without package table: expected NotImplementedError, got: {describe(bare)[:300]}", case=dict(case, note=mode + " resolver, no package table"))
                 return
     # a message of a format / version for which NO package table is registered: every package is unknown there
     if occurrences and rng.random() < 0.3:
